@@ -459,7 +459,7 @@ inline void userCode(TC& c, Inst& in, Method m, uint8_t sid) {
 				return;
 			}
 			if (p.pingPong) {
-				if (m == Method::ENTRY_GUARD || w.ch.chance(1, 3)) doChange(c, in, sid, static_cast<uint8_t>(sid == ROOT ? w.ch.draw(N) : (sid + 1 + w.ch.draw(2)) % N), HAS_PAYLOAD && w.ch.chance(1, 3));
+				if (m == Method::ENTRY_GUARD || p.relentless || w.ch.chance(1, 3)) doChange(c, in, sid, static_cast<uint8_t>(sid == ROOT ? w.ch.draw(N) : (sid + 1 + w.ch.draw(2)) % N), HAS_PAYLOAD && w.ch.chance(1, 3));
 				if (w.ch.chance(1, 5)) doCancel(c, in, sid);
 				return;
 			}
